@@ -10,6 +10,8 @@ constructs a maintainer writes either way:
      becomes `if (e == A) S1 else if (e == B) S2 ... else Sd` (trailing `break`s dropped)
  N7  a never-reassigned `bool` local with a side-effect-free initialiser over never-reassigned locals / parameters is
      replaced by its initialiser where it is used as a condition (`const bool r = a > b || ...; return r ? x : y;`)
+ N8  a never-reassigned scalar local that is a copy of a field of another local (`const size16_t idx = res.term_idx;`),
+     where that other local is not written after the copy is taken, is replaced by the field access it copies
  N9  the statement `x = c ? a : b;` becomes `if (c) x = a; else x = b;`
  N3  a `for` statement without a condition, `for (T i = a; ; ++i) { body }` (no `continue` in body), becomes
          T i = a;  while (true) { body; ++i; }
@@ -302,6 +304,91 @@ def _expand_bool_temps(body, is_bool):
     return n_rep
 
 
+def _pos(n):
+    try:
+        a, b = str(n.get("l") or "0:0").split(":")[-2:]
+        return int(a), int(b)
+    except ValueError:
+        return (0, 0)
+
+
+def _expand_field_copies(body):
+    """N8 on a whole function body (in place)."""
+    writes = {}        # var id -> [positions of writes (assignments, ++, compound, passing by address is not tracked)]
+    for n in walk(body):
+        k = n.get("k")
+        t = None
+        if k in ("BinaryOperator", "CompoundAssignOperator") and n.get("op", "").endswith("=") and \
+                n.get("op") not in ("==", "!=", "<=", ">="):
+            t = n["c"][0]
+        elif k == "UnaryOperator" and n.get("op") in ("++", "--"):
+            t = n["c"][0]
+        elif k == "CXXOperatorCallExpr" and (n.get("op") in ("++", "--") or (n.get("op", "").endswith("=") and
+                                                                             n.get("op") not in ("==", "!=", "<=", ">="))):
+            t = n["c"][1] if len(n.get("c") or []) > 1 else None
+        if t is None:
+            continue
+        x = strip(t, casts=True)
+        while x is not None and x.get("k") == "MemberExpr":
+            x = strip((x.get("c") or [None])[0], casts=True)
+        if x is not None and x.get("k") == "DeclRefExpr":
+            writes.setdefault(x["d"]["id"], []).append(_pos(n))
+    # a local handed to a callee may be written there: calls that mention it after the copy count as writes
+    copies = {}
+    for n in walk(body):
+        if n.get("k") != "Var" or n.get("init") is None or n.get("ref") or n["id"] in writes:
+            continue
+        e = strip(n["init"], casts=True)
+        if e is None or e.get("k") != "MemberExpr" or e["m"]["k"] != "Field":
+            continue
+        root = e
+        while root is not None and root.get("k") == "MemberExpr":
+            root = strip((root.get("c") or [None])[0], casts=True)
+        if root is None or root.get("k") != "DeclRefExpr" or root["d"]["k"] != "Var" or root["d"].get("global"):
+            continue
+        rid = root["d"]["id"]
+        here = _pos(n)
+        if any(p > here for p in writes.get(rid, ())):
+            continue
+        # the root must not be passed to a call (by reference) after the copy
+        later_call = False
+        for c in walk(body):
+            if c.get("k") in ("CallExpr", "CXXMemberCallExpr") and _pos(c) > here:
+                for a in (c.get("c") or [])[1:]:
+                    sa = strip(a, casts=True)
+                    if sa is not None and sa.get("k") == "DeclRefExpr" and sa["d"]["id"] == rid:
+                        later_call = True
+        if later_call:
+            continue
+        copies[n["id"]] = n["init"]
+    if not copies:
+        return 0
+    n_rep = 0
+
+    def rec(node):
+        nonlocal n_rep
+        if not isinstance(node, dict):
+            return
+        for key, v in list(node.items()):
+            if isinstance(v, dict):
+                if v.get("k") == "DeclRefExpr" and v["d"]["id"] in copies:
+                    node[key] = {"k": "ParenExpr", "l": v.get("l"), "t": v.get("t"), "c": [copies[v["d"]["id"]]],
+                                 "synthetic": True}
+                    n_rep += 1
+                else:
+                    rec(v)
+            elif isinstance(v, list):
+                for i, x in enumerate(v):
+                    if isinstance(x, dict) and x.get("k") == "DeclRefExpr" and x["d"]["id"] in copies:
+                        v[i] = {"k": "ParenExpr", "l": x.get("l"), "t": x.get("t"), "c": [copies[x["d"]["id"]]],
+                                "synthetic": True}
+                        n_rep += 1
+                    else:
+                        rec(x)
+    rec(body)
+    return n_rep
+
+
 def _split_return(s):
     """ReturnStmt node -> IfStmt with two returns, when the value is a conditional expression."""
     v = s.get("value")
@@ -326,6 +413,7 @@ def normalise(body, is_bool=None):
     n = 0
     if is_bool is not None:
         n += _expand_bool_temps(body, is_bool)
+        n += _expand_field_copies(body)
 
     def rec(node):
         nonlocal n
